@@ -30,7 +30,9 @@ type snapshot struct {
 func (s *snapshot) Key() snapshotKey {
 	// Hash.Write() never returns an error.
 	hasher := sha256.New()
-	hasher.Write([]byte(fmt.Sprintf("%v:%v:%v", s.Height, s.Format, s.Chunks)))
+	// The lengths of the variable-size fields are part of the key, otherwise snapshots that only
+	// differ in where one field ends and the next one begins (chunks/hash, hash/metadata) collide.
+	hasher.Write([]byte(fmt.Sprintf("%v:%v:%v:%v:%v:", s.Height, s.Format, s.Chunks, len(s.Hash), len(s.Metadata))))
 	hasher.Write(s.Hash)
 	hasher.Write(s.Metadata)
 	var key snapshotKey
